@@ -295,6 +295,9 @@ func handleHotRestart(s *Session, hdr header, buf []byte) (int, bool, error) {
 	if len(buf) < epochIDLen {
 		return 0, true, nil
 	}
+	if s.manager == nil {
+		return headerSize + epochIDLen, false, ErrInvalidMsgType
+	}
 	epochID := binary.BigEndian.Uint64(buf[:epochIDLen])
 	s.logger.warnf("%s [epoch:%d] receive hot restart", s.sessionName(), epochID)
 
@@ -308,6 +311,9 @@ func handleHotRestart(s *Session, hdr header, buf []byte) (int, bool, error) {
 func handleHotRestartAck(s *Session, hdr header, buf []byte) (int, bool, error) {
 	if len(buf) < epochIDLen {
 		return 0, true, nil
+	}
+	if s.listener == nil {
+		return headerSize + epochIDLen, false, ErrInvalidMsgType
 	}
 	epochID := binary.BigEndian.Uint64(buf[:epochIDLen])
 	s.logger.warnf("%s [epoch:%d] receive hot restart ack", s.name, epochID)
